@@ -89,8 +89,8 @@ type Case struct {
 
 // Emitter writes trace events.
 type Emitter struct {
-	w      *bufio.Writer
-	cur    *Case
+	w       *bufio.Writer
+	cur     *Case
 	events  int
 	calls   int64
 	scanned int64
